@@ -284,6 +284,11 @@ def run(ctx):
           'Definition E1 := Eval vm_compute in failing case_agrees 0 e_cases.',
           'Definition E2 := Eval vm_compute in failing case_meets_spec 0 e_cases.',
           'Print T0. Print L1. Print L2. Print L3. Print E1. Print E2.']
+    # self-test of the glue: a case whose observation is perturbed must be flagged by the comparison
+    if lint_cases:
+        pr = json.loads(json.dumps(lint_cases[0]))
+        pr['out']['ignored'] = not pr['out']['ignored']
+        v += ['Definition S1 := Eval vm_compute in failing lcase_agrees 0 [%s].' % c_lcase(names, agg_rules, pr['in'], pr['out']), 'Print S1.']
     if fn_ok:
         v += ['Open Scope string_scope.'] + ['Print %s.' % n for n in chunk_names]
     rc, cout = vlib.coq_eval(ctx, 'Cases_C04', '\n'.join(v), timeout=2400)
@@ -292,6 +297,8 @@ def run(ctx):
     phase('coq_eval')
     g = lambda m: vlib.parse_nat_list(cout, m) or []
     t0, l1, l2, l3, e1, e2 = g('T0'), g('L1'), g('L2'), g('L3'), g('E1'), g('E2')
+    if lint_cases and g('S1') != [0]:
+        raise RuntimeError('self-test failed: a perturbed observation was not flagged by Check.C04Check.lcase_agrees')
     # exhaustive function level: the table Coq computed from the model (Check/C04Table.v) against what /repo did
     f1, f2, fx, fn_in_domain = [], [], [], 0
     if fn_ok:
